@@ -59,9 +59,17 @@ mod verif_kani_error_harness {
         kani::cover!(r.1 > 0, "a position in a later column");
     }
 
+    // one byte: no later line exists, so only the column cover applies
     #[kani::proof]
     #[kani::unwind(3)]
-    fn k8_post_n1() { run_post::<1>(); }
+    fn k8_post_n1() {
+        let a: [u8; 1] = kani::any();
+        let index: usize = kani::any();
+        kani::assume(verif_kani_error::pre(&a, index));
+        let r = translate_position(&a, index);
+        assert!(verif_kani_error::post(&a, index, r), "translate_position differs from (line, character column)");
+        kani::cover!(r.1 > 0, "a position in a later column");
+    }
     #[kani::proof]
     #[kani::unwind(4)]
     fn k8_post_n2() { run_post::<2>(); }
